@@ -404,7 +404,39 @@ func (g *genPkg) genFunc(fi *FuncInfo, specNames map[string]bool) error {
 	}
 	for _, c := range fc.Ensures {
 		c.GoName = g.fresh(base + "_ens")
-		g.emitBoolFunc(c.GoName, fi.TParams, post, c.Expr, c.Line, "ensures")
+		// a postcondition may mention local variables of the body: their values at the return
+		// (such a clause is checked on the body but not offered to callers)
+		extra := ""
+		c.Locals = nil
+		if fi.Decl != nil && fi.Decl.Body != nil {
+			if ids, err := freeIdents(rewriteExpr(c.Expr)); err == nil {
+				isName := func(decl, n string) bool {
+					for _, d := range strings.Split(decl, ", ") {
+						if f := strings.Fields(d); len(f) > 0 && f[0] == n {
+							return true
+						}
+					}
+					return false
+				}
+				for _, n := range ids {
+					if strings.HasPrefix(n, "gc") || isName(post, n) || specNames[n] || types.Universe.Lookup(n) != nil || g.pkg.Types.Scope().Lookup(n) != nil {
+						continue
+					}
+					if _, isImp := importName(g, n); isImp {
+						continue
+					}
+					var body ast.Node = fi.Decl.Body
+					if fi.Lit != nil {
+						body = fi.Lit.Body
+					}
+					if v := localVar(fi, n, body.End()-1); v != nil {
+						extra = joinDecl(extra, n+" "+g.ts(v.Type()))
+						c.Locals = append(c.Locals, n)
+					}
+				}
+			}
+		}
+		g.emitBoolFunc(c.GoName, fi.TParams, joinDecl(post, extra), c.Expr, c.Line, "ensures")
 	}
 	if fc.LockOf != nil {
 		fc.LockOf.GoName = g.fresh(base + "_lockof")
